@@ -29,8 +29,10 @@ Deliver(fired) == /\ Cardinality(Obs) = Len(ev.cbs)
 
 MapPolicy(p) == IF p = "tinylfu" THEN TlfuAs ELSE p
 
+\* (a run that ends without Close - the repository's own tests do that - may leave callbacks of an asynchronous cache undelivered;
+\*  Close itself demands that none is outstanding, and a synchronous cache never has any)
 TReset == /\ IsEvent("Reset")
-          /\ pend = {}
+          /\ (pend = {} \/ ~syncMode)
           /\ cfg' = [cap |-> ev.cap, policy |-> MapPolicy(ev.policy), expiry |-> ev.expiry]
           /\ st' = EmptyState /\ now' = 0 /\ nops' = 0 /\ useLog' = <<>>
           /\ pend' = {} /\ syncMode' = ev.sync
